@@ -82,7 +82,8 @@ def statement_host():
     """a valid schema with every statement kind, a QUERY and an interval: base text for the single-token mutants of
     spec/TokMut.tla (the parser opens scopes of its own for QUERY, REPEAT and ALIAS)"""
     return ("SCHEMA ex;\n" + STATEMENTS + "ENTITY host;\n  a1 : INTEGER;\n  a9 : LIST [2:?] OF INTEGER;\nDERIVE\n  d1 : INTEGER := stm(a1, a9);\n"
-            "WHERE\n  wq : SIZEOF(QUERY(x <* a9 | x > a1)) = 0;\n  wi : {1 <= a1 < 10};\nEND_ENTITY;\nEND_SCHEMA;\n")
+            "WHERE\n  wq : SIZEOF(QUERY(x <* a9 | x > a1)) = 0;\n  wi : {1 <= a1 < 10};\n"
+            "  wg : SIZEOF(QUERY(y <* [SELF] | y\\host.a1 > 0)) = 1;\nEND_ENTITY;\nEND_SCHEMA;\n")
 
 
 def run_exppp(bdir, src, d, opts):
